@@ -54,6 +54,8 @@ def shards(tier):
     # object keys whose order as text differs from their order as values (10 < 2 and -3 > -20 as text)
     out.append({"part": "one", "kind": "obj", "tier": tier, "n": 3, "first": None, "alpha": [None, 2, 10, -3, -20]})
     out.append({"part": "one", "kind": "obj", "tier": tier, "n": 3, "first": None, "alpha": [None, 1, 1.0, True, 2, 0.5]})
+    # an object column of strings: '' is a value there (it sorts before 'a'), only None is missing
+    out.append({"part": "one", "kind": "obj", "tier": tier, "n": 3, "first": None, "alpha": [None, "", "a", "b"]})
     # a narrower integer type with its own minimum (negation overflows there)
     out.append({"part": "one", "kind": "i4", "tier": tier, "n": 3, "first": None})
     # integers on both sides of the int32 range next to small ones
